@@ -206,3 +206,163 @@ pub fn run(args: &[String]) -> i32 {
     );
     0
 }
+
+
+/// `c10-acct`: histories without breakpoints (the one used to reach the first stop is removed), so the
+/// whole run can be replayed through the tracer model: events = sends / stepi / continue.
+pub fn run_acct(args: &[String]) -> i32 {
+    let seed: u64 = args.first().and_then(|s| s.parse().ok()).unwrap_or(1);
+    let count: usize = args.get(1).and_then(|s| s.parse().ok()).unwrap_or(10);
+    let out_dir = args.get(2).cloned().unwrap_or_else(|| "../coq/cases".into());
+    let scratch = args.get(3).cloned().unwrap_or_else(|| "/verif/.scratch/c10".into());
+    let mut rng = Rng::new(seed ^ 0xC10A);
+    let bin = match e2e::compile(&scratch, "sigdebuggee", DEBUGGEE, &[], None) {
+        Ok(b) => b,
+        Err(e) => {
+            eprintln!("compile failed: {e}");
+            return 3;
+        }
+    };
+    let mut cases = CasesFile::new(&["Model.Tracer"], "acct_case", "acct_check");
+    let mut hist: BTreeMap<String, u64> = BTreeMap::new();
+    let mut seen = HashSet::new();
+    let mut nontrivial = 0usize;
+    let mut samples = vec![];
+    let mut errors: Vec<String> = vec![];
+    let mut metas: Vec<serde_json::Value> = vec![];
+    for h in 0..count {
+        let mut s = match e2e::launch(&bin, &["2".to_string()]) {
+            Ok(s) => s,
+            Err(e) => {
+                errors.push(e);
+                continue;
+            }
+        };
+        let views = s.dbg.set_breakpoint_at_fn("anchor").map(|v| v.iter().map(|b| b.number).collect::<Vec<_>>());
+        let Ok(nums) = views else {
+            errors.push("break".into());
+            continue;
+        };
+        if let Err(e) = s.dbg.start_debugee() {
+            errors.push(format!("start: {e}"));
+            continue;
+        }
+        for n in nums {
+            let _ = s.dbg.remove_breakpoint_by_number(n);
+        }
+        // leave the breakpoint address first (the model has no breakpoints): a few plain steps
+        for _ in 0..3 {
+            let _ = s.dbg.stepi();
+        }
+        s.events.take();
+        let pid = s.pid_now();
+        let mut evs: Vec<String> = vec![];
+        let mut sent: Vec<i32> = vec![];
+        let mut reported: Vec<(i32, i32)> = vec![];
+        let mut exited = false;
+        let mut max_pending = 0usize;
+        let mut pending_now = 0usize;
+        let mut err: Option<String> = None;
+        let windows = rng.range(1, 4);
+        for _ in 0..windows {
+            if exited {
+                break;
+            }
+            let n = if h % 3 != 0 { rng.range(0, 1) } else { rng.range(0, 3) };
+            let mut kinds: Vec<i32> = vec![];
+            for _ in 0..n {
+                let k = rng.pick(SIGS).0;
+                if !kinds.contains(&k) && !sent.iter().rev().take(pending_now).any(|x| *x == k) {
+                    kinds.push(k);
+                }
+            }
+            for k in &kinds {
+                unsafe { libc::kill(pid.as_raw(), *k) };
+                sent.push(*k);
+                evs.push(format!("ASend {} {}", cf::n(1), cf::n(*k as u128)));
+            }
+            pending_now += kinds.len();
+            max_pending = max_pending.max(pending_now);
+            for _ in 0..rng.range(0, 6) {
+                evs.push("AOp OStepi".into());
+                match s.dbg.stepi() {
+                    Ok(()) => {}
+                    Err(e) => {
+                        err = Some(format!("stepi: {e}"));
+                        break;
+                    }
+                }
+                for ev in s.events.take() {
+                    match ev {
+                        e2e::Ev::Signal(sig) => reported.push((sig, pid.as_raw())),
+                        e2e::Ev::Exit(_) => exited = true,
+                        _ => {}
+                    }
+                }
+            }
+            if err.is_some() {
+                break;
+            }
+        }
+        if err.is_none() {
+            // continue until exit
+            let mut guard = 0;
+            while !exited && guard < 40 {
+                guard += 1;
+                evs.push("AOp OCont".into());
+                match s.dbg.continue_debugee_with_reason() {
+                    Ok(StopReason::SignalStop(tid, sig)) => reported.push((sig as i32, tid.as_raw())),
+                    Ok(StopReason::DebugeeExit(_)) => exited = true,
+                    Ok(other) => {
+                        err = Some(format!("unexpected stop {other:?}"));
+                        break;
+                    }
+                    Err(e) => {
+                        err = Some(format!("continue: {e}"));
+                        break;
+                    }
+                }
+                s.events.take();
+                pending_now = 0;
+            }
+        }
+        if let Some(e) = err {
+            errors.push(format!("history {h}: {e}"));
+            continue;
+        }
+        s.wait_out("COUNTS", 2000);
+        let out = s.stdout();
+        let Some(line) = out.lines().find(|l| l.starts_with("COUNTS ")) else {
+            errors.push(format!("history {h}: no COUNTS line"));
+            continue;
+        };
+        let counts: Vec<(i32, u64)> = line["COUNTS ".len()..].split(' ').next().unwrap_or("").split(',')
+            .filter_map(|kv| { let (k, v) = kv.split_once(':')?; Some((k.parse().ok()?, v.parse().ok()?)) })
+            .filter(|(k, _)| sent.contains(k))
+            .collect();
+        let case = format!(
+            "([{}], {}, {}, {})",
+            cf::n(1),
+            cf::list(&evs, |e| e.clone()),
+            cf::list(&counts, |(k, v)| format!("({}, {})", cf::n(*k as u128), cf::n(*v as u128))),
+            cf::list(&reported, |(sig, _)| format!("({}, {})", cf::n(1), cf::n(*sig as u128)))
+        );
+        if seen.insert(case.clone()) && !sent.is_empty() {
+            nontrivial += 1;
+        }
+        *hist.entry(format!("sent:{}", sent.len().min(5))).or_default() += 1;
+        *hist.entry(format!("max_pending:{}", max_pending.min(3))).or_default() += 1;
+        if samples.len() < 3 {
+            samples.push(serde_json::json!({"events": evs, "counters": counts, "reported": reported}));
+        }
+        metas.push(serde_json::json!({"max_pending": max_pending, "events": evs, "counters": counts, "reported": reported}));
+        cases.push(case);
+    }
+    let files = cases.write(&out_dir, "cases_C10_acct", 100);
+    println!(
+        "{}",
+        serde_json::json!({"leg": "c10-acct", "seed": seed, "cases": cases.cases.len(), "distinct_nontrivial": nontrivial,
+            "histogram": hist, "samples": samples, "files": files, "errors": errors, "case_meta": metas, "shard": 100})
+    );
+    0
+}
